@@ -72,7 +72,7 @@ var varyConfigs = []string{"", "X-A", "X-A, X-B", "X-B, X-A", "x-a", "*", "X-A, 
 	"X-A\"|*", "\"|X-A, *", "X-\xe9", "*, X-\xe9", "X-A, x-\xff\xfe"}
 
 // method tokens are case-sensitive: "get" is an extension method, not GET
-var unsafeMethods = []string{"POST", "PUT", "DELETE", "PATCH", "PROPPATCH", "MKCOL", "FOO", "post", "get", "Get", "gEt"}
+var unsafeMethods = []string{"POST", "PUT", "DELETE", "PATCH", "PROPPATCH", "MKCOL", "FOO", "post", "get", "Get", "gEt", "(empty)"}
 var safeOtherMethods = []string{"HEAD", "OPTIONS", "TRACE", "PROPFIND", "REPORT", "SEARCH"}
 
 func (g *G) reqHeaders(fields []string) Hdr {
@@ -186,7 +186,17 @@ func (g *G) genRandom(id string, opt randOpt) *History {
 			} else {
 				cc = append([]string{oic}, cc...)
 			}
-			if g.chance(0.6) {
+			if g.chance(0.15) {
+				// a malformed first element: on a line of its own it swallows nothing, on one line with the rest it
+				// swallows everything behind it (same joined text, different meaning)
+				cc = append([]string{`ext="v`}, cc...)
+				if g.chance(0.5) {
+					hdr = append(hdr, [2]string{"Cache-Control", strings.Join(cc, ",")})
+					cc = nil
+				}
+			}
+			if len(cc) == 0 {
+			} else if g.chance(0.6) {
 				for _, d := range cc {
 					hdr = append(hdr, [2]string{"Cache-Control", d})
 				}
@@ -241,7 +251,12 @@ func (g *G) genRandom(id string, opt randOpt) *History {
 				if opt.vary && g.chance(0.4) {
 					// a 304 carries the Vary of the 200 it stands for (RFC 9110 §15.4.5) — the current one, which may
 					// differ from the stored response's
-					rp.Hdr = append(rp.Hdr, varyHdr(pick(g, vary[ri], vary[ri], pick(g, varyConfigs...)))...)
+					v304 := pick(g, vary[ri], vary[ri], pick(g, varyConfigs...))
+					if vary[ri] != "" && !strings.ContainsAny(vary[ri], "|*\"") && g.chance(0.3) {
+						// the stored Vary on the first field line, one more nominated field on a second line
+						v304 = vary[ri] + "|" + pick(g, "X-B", "User-Agent", "Content-Language")
+					}
+					rp.Hdr = append(rp.Hdr, varyHdr(v304)...)
 					rp.Hdr = append(rp.Hdr, [2]string{"Cache-Control", "max-age=600"})
 				}
 			}
@@ -370,7 +385,7 @@ func (g *G) classes() []genClass {
 	inval := rnd(randOpt{class: "inval", maxRes: 2, maxOps: 8, methods: true, vary: true, grammar: true})
 	status := rnd(randOpt{class: "status", maxRes: 1, maxOps: 5, methods: true, statuses: true})
 	faults := rnd(randOpt{class: "faults", maxRes: 1, maxOps: 5, vary: true, statuses: true, faults: true})
-	backends := rnd(randOpt{class: "backends", maxRes: 2, maxOps: 6, vary: true, backends: true})
+	backends := rnd(randOpt{class: "backends", maxRes: 2, maxOps: 6, vary: true, backends: true, grammar: true})
 	gridFault := func(g *G, id string) *History {
 		h := g.genGrid(id)
 		h.Class = "grid+faults"
